@@ -128,12 +128,15 @@ func init() {
 	// ---------------------------------------------------------------- C08
 	sigma6 := []string{"0", "1", "2", "5", "a", "f", "F", "g", ":", ".", "%", "[", "]"}
 	pieces := []string{"", "0", "1", "00", "0001", "ffff", "FfFf", "10000", "g"}
-	v4tails := []string{"1.2.3.4", "0.0.0.0", "255.255.255.255", "256.1.1.1", "1.2.3", "1.2.3.4.5", "01.2.3.4", "1..2.3", "1.2.3.4.", ".1.2.3", "1.2.3.x", "0.0.0.00"}
+	// IPv4 tails: shape errors and every limit an implementation could wrap at (2^8, 2^16, 2^32, 2^63, 2^64, 19+ digits)
+	v4tails := []string{"1.2.3.4", "0.0.0.0", "255.255.255.255", "256.1.1.1", "1.2.3", "1.2.3.4.5", "01.2.3.4", "1..2.3", "1.2.3.4.", ".1.2.3", "1.2.3.x", "0.0.0.00",
+		"1.2.3.256", "1.2.3.65536", "1.2.3.4294967296", "1.2.3.9223372036854775808", "1.2.3.18446744073709551616", "1.2.3.9999999999999999999", "1.2.3.92233720368547758081",
+		"1.99999999999999999999.3.4", "1.2.18446744073709551617.4", "1.2.3.00000000000000000001"}
 	addrVals := []uint16{0, 1, 0xa, 0x10, 0xabc, 0xffff}
 	register(&fw.Check{
 		ID:    "C08",
 		Level: "model_checking",
-		Rule: "bracket contents Sigma6^<=k (0 1 2 5 a f F g : . % [ ]) and every bracket arrangement of them, structured addresses (0..9 pieces from a 9-item menu, '::' at every position, 12 IPv4 tails), in http: and foo:, compared with the model's IPv6 parser/serializer through the full URL parse; " +
+		Rule: "bracket contents Sigma6^<=k (0 1 2 5 a f F g : . % [ ]) and every bracket arrangement of them, structured addresses (0..9 pieces from a 9-item menu, '::' at every position, 22 IPv4 tails incl. every machine-integer wrap point), in http: and foo:, compared with the model's IPv6 parser/serializer through the full URL parse; " +
 			"serializer: all 6^8 addresses with pieces from {0,1,0xa,0x10,0xabc,0xffff} (all 2^8 zero patterns x digit-count classes) through IPv6Addr.String() against the model serializer and through parse(serialize(a)) = a. non-trivial = accepted address / serialized address; states = distinct canonical texts",
 		Assume:  []string{"reference model's IPv6 parser and serializer, validated through WPT"},
 		Trusted: []string{"verif/model"},
@@ -186,7 +189,7 @@ func init() {
 				emit(parts)
 				if len(parts) <= 7 {
 					for _, tl := range v4tails {
-						if !c.Thorough() && len(parts) < 5 && len(parts) > 1 && tl != "1.2.3.4" {
+						if !c.Thorough() && len(parts) < 5 && len(parts) > 2 && tl != "1.2.3.4" {
 							continue
 						}
 						emit(append(append([]string{}, parts...), tl))
